@@ -684,6 +684,8 @@ class Runner:
         self._functions = set()
         self.known = []
         self.match_known = None
+        self.witness_variants = None
+        self._last_witness = None
 
     # ---- obligations (called from SymH.check on the current path)
     def obligation(self, h, name, cond, why=""):
@@ -797,6 +799,7 @@ class Runner:
                 m = ex.solver.model()
             tried += 1
             w = self._witness_from(h, m)
+            self._last_witness = w
             rp = replay(self.run, self.params, w, self.tol)
             last = rp
             if rp["status"] == "ok" and rp["failed"]:
@@ -826,6 +829,7 @@ class Runner:
                     break
                 m = ex.solver.model()
                 w = self._witness_from(h, m)
+                self._last_witness = w
                 rp = replay(self.run, self.params, w, self.tol)
                 last = rp
                 if (rp["status"] == "ok" and rp["failed"]) or rp["status"] == "exception":
@@ -837,6 +841,15 @@ class Runner:
                     break
                 ex.solver.add(z3.Or(blk))
             ex.solver.pop()
+        # witness repair: the check module may propose concrete variants of the last model-level witness (e.g. smaller
+        # alpha); any variant that fails on the real code is a genuine, reproduced violation
+        variants = getattr(self, "witness_variants", None)
+        if variants is not None and last is not None and getattr(self, "_last_witness", None) is not None:
+            for w2 in variants(self._last_witness, self.params):
+                rp = replay(self.run, self.params, w2, self.tol)
+                if rp["status"] == "ok" and rp["failed"]:      # only failed obligations count here, not exceptions
+                    self._violation(name, w2, rp, kind="obligation")
+                    return "sat-reproduced"
         # No model reproduced.  z3's nonlinear 'sat' answers are not always backed by an exact model: ask the complete
         # procedures once more on the same assertions; 'unsat' there settles the obligation.
         if self._retry_unknown(ex) == "unsat":
@@ -990,6 +1003,7 @@ def run_item(prop, module_name, params, opts):
     mod = importlib.import_module(module_name)
     r = Runner(prop, mod.run, params, **opts)
     r.match_known = getattr(mod, "match_known", None)
+    r.witness_variants = getattr(mod, "witness_variants", None)
     try:
         import pathlib
 
